@@ -73,11 +73,8 @@ NoOut == [tid |-> "-", root |-> "-"]
 NoLast == [path |-> "-", evSet |-> {}]
 
 \* configuration families offered to the cfg files -------------------------
-IdConfigsQuick == << [tn |-> <<T1>>, pn |-> <<P1>>],
-                     [tn |-> <<T2>>, pn |-> <<P1>>],
-                     [tn |-> <<T1>>, pn |-> <<P2>>] >>
-IdConfigsPairs == << [tn |-> <<T1>>, pn |-> <<P1>>],
-                     [tn |-> <<T2>>, pn |-> <<P2>>] >>
+IdConfigsQuick == << [tn |-> <<T1>>, pn |-> <<P1>>],        \* both lists renamed by the reload: with the events below a stale
+                     [tn |-> <<T2>>, pn |-> <<P2>>] >>      \* trace-name list and a stale parent-name list each show on their own
 IdConfigsBig == << [tn |-> <<T1>>, pn |-> <<P1>>],
                    [tn |-> <<T2>>, pn |-> <<P1>>],
                    [tn |-> <<T1>>, pn |-> <<P2>>],
